@@ -30,7 +30,14 @@ func genHiccup(t *rapid.T) Case {
 	c.Instances = rapid.IntRange(1, 4).Draw(t, "instances")
 	c.PerInstance = c.Instances > 1 && rapid.IntRange(0, 2).Draw(t, "perInstance") == 0
 	perInst := rapid.SampledFrom([]int{6000, 4000, 2500, 1500, 3000, 5000}).Draw(t, "ratePerInstance")
-	durMs := rapid.SampledFrom([]int{4000, 3500, 3000, 2500, 2000}).Draw(t, "durMs")
+	// (the recording doubles cost about 40 us of CPU per token: at most 48000 tokens per case)
+	var durs []int
+	for _, ms := range []int{4000, 3500, 3000, 2500, 2000} {
+		if c.Instances*perInst*ms/1000 <= 48000 {
+			durs = append(durs, ms)
+		}
+	}
+	durMs := rapid.SampledFrom(durs).Draw(t, "durMs")
 	d := int64(durMs) * int64(time.Millisecond)
 	total := perInst
 	if !c.PerInstance {
@@ -79,9 +86,10 @@ func hiccupPlan(c Case, tokens int) (us []int, slowest time.Duration) {
 }
 
 // TestDenseHiccup: the run-length clause where it is hardest to keep: thousands of tokens per second per instance and
-// a target that stops answering for 2.1-2.8 s once or twice. Cases sleep most of their 4-7 s: all cases of a process
-// run concurrently.
+// a target that stops answering for 2.1-2.8 s once or twice. Cases last 4-7 s; only three of them run concurrently in
+// a process (the recording doubles identify the instance by runtime.Stack, which serialises the goroutines of a
+// process: tens of thousands of tokens per second per process is what they can take), the driver runs more processes.
 func TestDenseHiccup(t *testing.T) {
 	r := vf.Start(t, "C04")
-	vf.Batch(r, r.Pick(10, 80), 10, genHiccup, check)
+	vf.Batch(r, r.Pick(3, 24), 3, genHiccup, check)
 }
